@@ -5,7 +5,8 @@ import CbiVerif.Generated.Tables
 `contains` mirrors `CodeBase.__contains__`, `iter` mirrors `CodeBase.__iter__`
 (`Path(root).rglob('*')`, which on CPython 3.12 lists every entry below the root that is reached
 through real directories only — directory symlinks are listed but not entered — filtered through
-`__contains__`).  The gitignore matcher is the parameter `ignored`.  `counted` is the iteration of
+`__contains__`; of the listed directories only `walkRoots` are walked: one that equals an earlier one
+or lies inside another one is skipped).  The gitignore matcher is the parameter `ignored`.  `counted` is the iteration of
 `ParserState.get_setmap`, `notLinks` the one of `report.find_duplicates` / the propagation test of
 `FileTree.insert`; `insertFile` is the key discipline of `ParserState.insert_file`.  Core Lean only. -/
 namespace CbiVerif.CB
@@ -72,11 +73,34 @@ def rglob (fs : FS) (root : Comps) : List Comps :=
       root.isPrefixOf e && decide (root.length < e.length) && allFrom fs isDirE root (e.drop root.length).dropLast
   else []
 
-def candidates (fs : FS) (roots : List Comps) : List Comps := roots.flatMap (rglob fs)
+/-- `any(directory != other and directory.is_relative_to(other) for other in self._directories)`:
+the listed directory `d` lies inside another listed directory -/
+def insideAnother (roots : List Comps) (d : Comps) : Bool := roots.any fun o => o != d && isRelativeTo d o
+
+/-- the first occurrence of every element, in order (the `if directory in walked: continue` of `__iter__`) -/
+def firstOcc : List Comps → List Comps
+  | [] => []
+  | d :: ds => d :: (firstOcc ds).filter (fun x => x != d)
+
+/-- the directories `CodeBase.__iter__` walks (repair of F-C09-NEST = F-C15-ROOTS): a listed directory that
+equals an earlier one or lies inside another listed one is skipped — the walk of the enclosing directory
+reaches the same files -/
+def walkRoots (roots : List Comps) : List Comps := firstOcc (roots.filter fun d => !insideAnother roots d)
+
+/-- what `__iter__` did before the repair: every listed directory is walked in full -/
+def candidatesUnrepaired (fs : FS) (roots : List Comps) : List Comps := roots.flatMap (rglob fs)
+
+def candidates (fs : FS) (roots : List Comps) : List Comps := (walkRoots roots).flatMap (rglob fs)
 
 /-- `list(codebase)`: raises iff `__contains__` raises for some candidate -/
 def iter (cfg : Cfg) (fs : FS) (n : Nat) (roots : List Comps) : Except Err (List Comps) :=
   let cands := candidates fs roots
+  if cands.any (fun x => isErr (contains cfg fs n roots [] ⟨true, x⟩)) then .error .symlinkLoop
+  else .ok (cands.filter fun x => isTrue (contains cfg fs n roots [] ⟨true, x⟩))
+
+/-- `list(codebase)` before the repair of F-C09-NEST (kept to state what the repair changed: nothing but repetitions) -/
+def iterUnrepaired (cfg : Cfg) (fs : FS) (n : Nat) (roots : List Comps) : Except Err (List Comps) :=
+  let cands := candidatesUnrepaired fs roots
   if cands.any (fun x => isErr (contains cfg fs n roots [] ⟨true, x⟩)) then .error .symlinkLoop
   else .ok (cands.filter fun x => isTrue (contains cfg fs n roots [] ⟨true, x⟩))
 
